@@ -69,6 +69,8 @@ def main(pid, tier, seed, replay_path=None):
     t0 = time.time()
     if pid == "C15" and replay_path and replay_path.endswith(".json"):
         return replay_l3(pid, replay_path)
+    if pid == "C13" and replay_path and replay_path.endswith(".json"):
+        return replay_l3(pid, replay_path, hist=True)
     if pid == "C14" and replay_path and is_stress_case(replay_path):
         return replay_stress(pid, tier, seed, replay_path)
     po = cl.proof_obligations(pid)
@@ -201,6 +203,18 @@ def main(pid, tier, seed, replay_path=None):
             return 1
         l3res = l3refresh.run(binary, seed, tier)
         l3fails = l3res["fails"]
+    # C13 only: request histories on the REAL server binary over HTTP, router-stub and Euclidean walking modes (the handlers,
+    # the walking filters and the per-thread calculator exist only there): three orders of one request set + fresh servers
+    l3h, l3hfails = None, []
+    if pid == "C13" and not replay_path:
+        import l3, l3hist
+        binary, e3 = l3.build_server()
+        if e3:
+            path = cl.write_nofail_replay(pid, "server build (L3 request histories)", str(e3))
+            print("VIOLATION property=%s replay=%s no-failing-input-found" % (pid, path))
+            return 1
+        l3h = l3hist.run(binary, seed, tier)
+        l3hfails = l3h["fails"]
     # C14 only: free-running phase on the real classes (no forced scheduling), plain build and ThreadSanitizer build
     fr, frfails = None, []
     if pid == "C14" and not replay_path:
@@ -220,6 +234,14 @@ def main(pid, tier, seed, replay_path=None):
         path = cl.write_nofail_replay(pid, fr["unchecked"][0], fr["unchecked"][1])
         print("VIOLATION property=%s replay=%s no-failing-input-found" % (pid, path))
         viol.append(path); rc = 1
+    if l3hfails:
+        why, rd = l3hfails[0]
+        path = l3hist.write_replay(pid, why, rd)
+        print("VIOLATION property=%s replay=%s" % (pid, path))
+        print(l3hist.describe(why, rd))
+        for w in sorted(set("history %s (%s): %s" % (x[1].get("history"), x[1].get("mode"), str(x[1].get("request", x[0]))[:140]) for x in l3hfails[1:]))[:6]:
+            print("  also:", w)
+        viol.append(path); rc = 1
     if l3fails:
         why, rd = l3fails[0]
         path = l3refresh.write_replay(pid, why, rd)
@@ -234,7 +256,7 @@ def main(pid, tier, seed, replay_path=None):
         print("VIOLATION property=%s replay=%s" % (pid, path))
         print("  %s\n  cache mode: %s\n  op   : %s\n  impl : %s\n  model: %s" % (why, mode, r["op"], r["impl"][:300], r["model"][:300]))
         viol.append(path); rc = 1
-    elif not po["ok"] and not l3fails and not viol:
+    elif not po["ok"] and not l3fails and not l3hfails and not viol:
         path = cl.write_nofail_replay(pid, "proof obligations of Properties_%s.v (%d of %d)" % (pid, po["discharged"], po["obligations"]), po["log"])
         print("VIOLATION property=%s replay=%s no-failing-input-found" % (pid, path))
         viol.append(path); rc = 1
@@ -250,7 +272,13 @@ def main(pid, tier, seed, replay_path=None):
                      "C14": "2-3 concurrent requests over >=2 scenarios, one thread each, under forced schedules at the four yield points (all 20 interleavings for 2 threads in thorough, samples otherwise), cold and warmed caches, both cache modes; non-trivial = distinct observed yield-point traces. Free-running phase: 4-8 threads started together behind a barrier, each with a list of 6 route/accessibility requests (rotated in every second round) over 2-3 scenarios against ONE TransitData, no forced scheduling (the hook yields with probability 0-60 % or does nothing, optional start jitter <= 100 us), a fresh TransitData every round, both cache modes, datasets of the generators plus a profile with a few hundred connections; every response compared with the sequential response of the same request and with the model; the same phase on a harness built with -fsanitize=thread (fewer rounds): every unsuppressed ThreadSanitizer report is a violation, the first report goes into the replay file",
                      "C15": "histories with refreshes of kind all / schedules / scenarios+schedules between dataset pairs (trips dropped, times moved, scenario lists changed), both cache modes; non-trivial = request for a scenario cached before the refresh"}[pid],
                samples=samples or [dict(note="none")], histories=len(cases), fresh_process_comparisons=fresh_checked,
-               disagreements=len(fails) + len(l3fails) + len(frfails), exhaustive=False)
+               disagreements=len(fails) + len(l3fails) + len(frfails) + len(l3hfails), exhaustive=False)
+    if l3h is not None:
+        cov.update(l3_histories=l3h["histories"], l3_answers=l3h["evaluations"], l3_requests=l3h["requests"],
+                   l3_successful_requests=l3h["successful_requests"], l3_distinct_answers=l3h["distinct_answers"],
+                   l3_euclidean_histories=l3h["euclidean_histories"], l3_router_histories=l3h["router_histories"],
+                   l3_disagreements=len(l3hfails),
+                   l3_rule="real binary over HTTP, walking router stub and --useEuclideanDistance=true alternately, both cache modes: one request set (route, alternatives, summary, accessibility over scenarios 1-4, both time types, four invalid requests in between; Euclidean mode: the same points with a sweep of walking limits 6..45 s that cuts the stop set at every stop) answered by three servers in the given, the reverse and a shuffled order with repeats, plus single requests on servers started for them alone: every request must get the same answer everywhere")
     if fr is not None:
         cov.update(free_running_rounds=fr["rounds"], free_running_responses=fr["responses"], free_running_datasets=fr["datasets"],
                    free_running_big_datasets=fr["big_datasets"], free_running_threads=fr["threads"], free_running_disagreements=len(frfails),
@@ -263,7 +291,7 @@ def main(pid, tier, seed, replay_path=None):
                    l3_refresh_cache_modes=l3res["cache_modes"], l3_refresh_omitted=l3res["omitted"],
                    l3_refresh_answers_changed=l3res["answers_changed_by_refresh"], l3_refresh_disagreements=len(l3fails),
                    l3_refresh_rule="real binary over HTTP: server started on dataset A's cache files (k4: one kind of files missing), query set of 9 requests (route, alternatives, summary, accessibility; scenarios 1-3; both time types), files replaced by dataset B's (k5: one kind removed), GET /updateCache?names=all | schedules | scenarios,schedules, the queries again: every answer must equal the answer of a server newly started on the same directory; then A's files are put back, /updateCache again, and every answer must equal the start-up answer; replies of /updateCache must be the success object, the process must stay alive")
-    assumptions = {"C13": ["L2: one TransitData per history; the HTTP layer is exercised by the L3 checks"],
+    assumptions = {"C13": ["L2 part: one TransitData per history (table geofilters); the HTTP handlers, walking filters and per-thread calculator of the real process are covered by the L3 part (metamorphic: same request set in three orders + fresh servers), not by the model"],
                    "C14": ["lookup and publish are atomic (shared_mutex) and a thread keeps its shared_ptr: trusted runtime; data races, torn updates and lifetimes are exercised (forced schedules; free-running threads on a plain and on a ThreadSanitizer build in both tiers), not proved",
                            "alternatives re-fetch the set at every recalculation; the protocol model fetches once per request"],
                    "C15": ["L2 part: refresh = TransitData::update* in the /updateCache handler's order on an in-memory fetcher; the HTTP handler and the data status the endpoints answer from are exercised by the L3 part (real binary, Cap'n Proto files rewritten on disk, /updateCache over HTTP)"]}[pid]
@@ -272,8 +300,10 @@ def main(pid, tier, seed, replay_path=None):
         l3res["evaluations"], l3res["histories"], " ".join("%s=%d" % kv for kv in sorted(l3res["kinds"].items())), l3res["answers_changed_by_refresh"], len(l3fails), l3res["wall_s"])
     frtxt = "" if fr is None else " free-running: %d responses in %d rounds (%d datasets, %d large), ThreadSanitizer: %d responses in %d rounds, %d reports, %d suppressions, %.1fs;" % (
         fr["responses"], fr["rounds"], fr["datasets"], fr["big_datasets"], fr["tsan_responses"], fr["tsan_rounds"], fr["tsan_reports"], len(fr["tsan_suppressions"]), fr.get("wall_s") or 0)
-    print("%s %s: obligations %d/%d, %d responses in %d histories (%d non-trivial), %d fresh-process comparisons,%s%s %d violations, %.1fs" %
-          (pid, tier, po["discharged"], po["obligations"], evals, len(cases), cov["distinct_nontrivial"], fresh_checked, l3txt, frtxt, len(fails) + len(l3fails) + len(frfails), time.time() - t0))
+    l3htxt = "" if l3h is None else " L3 (real server, %d Euclidean + %d router-stub histories in 3 orders + fresh servers): %d answers to %d requests (%d successful), %d depend on the history, %.1fs;" % (
+        l3h["euclidean_histories"], l3h["router_histories"], l3h["evaluations"], l3h["requests"], l3h["successful_requests"], len(l3hfails), l3h["wall_s"])
+    print("%s %s: obligations %d/%d, %d responses in %d histories (%d non-trivial), %d fresh-process comparisons,%s%s%s %d violations, %.1fs" %
+          (pid, tier, po["discharged"], po["obligations"], evals, len(cases), cov["distinct_nontrivial"], fresh_checked, l3txt, frtxt, l3htxt, len(fails) + len(l3fails) + len(frfails) + len(l3hfails), time.time() - t0))
     return rc
 
 
@@ -311,9 +341,11 @@ def replay_stress(pid, tier, seed, replay_path):
     return 0
 
 
-def replay_l3(pid, replay_path):
-    """re-run the history of an L3 replay file (tools/l3refresh.py) on the binary built from the current sources"""
+def replay_l3(pid, replay_path, hist=False):
+    """re-run the history of an L3 replay file (tools/l3refresh.py, tools/l3hist.py) on the binary built from the current sources"""
     import l3, l3refresh
+    if hist:
+        import l3hist as l3refresh
     binary, e3 = l3.build_server()
     if e3:
         path = cl.write_nofail_replay(pid, "server build (L3 refresh histories)", str(e3))
@@ -325,7 +357,7 @@ def replay_l3(pid, replay_path):
         print("VIOLATION property=%s replay=%s" % (pid, replay_path))
         print(l3refresh.describe(why, rd))
         return 1
-    print("%s replay %s: %d answers after refresh in %d history, all equal to a fresh server's" % (pid, replay_path, res["evaluations"], res["histories"]))
+    print("%s replay %s: %d answers in %d history, all equal to a fresh server's" % (pid, replay_path, res["evaluations"], res["histories"]))
     return 0
 
 
